@@ -134,13 +134,13 @@ func Corpus() *Program {
 
 	msg("Empties", []string{"Pick"},
 		fld("Label", 1, KString),
-		fld("E", 2, KMessage, ref("Empty")), fld("EV", 3, KMessage, ref("Empty"), nonNull()),
+		fld("E", 2, KMessage, ref("Empty")), fld("EV", 3, KMessage, ref("Empty"), nonNull(), jsonTag("ev")),
 		fld("PickE", 6, KMessage, ref("Empty"), oneof("Pick")), fld("PickS", 7, KString, oneof("Pick")))
 
 	msg("Sink", []string{"Kind"},
 		fld("Name", 1, KString), fld("Count", 2, KInt64), fld("Ratio", 3, KDouble), fld("On", 4, KBool),
 		fld("Mode", 5, KEnum, ref("Mode")), fld("Data", 6, KBytes),
-		fld("Created", 7, KTime, nonNull()), fld("Expires", 8, KTime), fld("TTL", 9, KInt64, cast(DurationCastName)),
+		fld("Created", 7, KTime, nonNull()), fld("Expires", 8, KTime), fld("TTL", 9, KInt64, cast(DurationCastName), jsonTag("ttl")),
 		fld("Grace", 10, KDuration),
 		fld("Labels", 11, KString, mapOf()), fld("Names", 12, KString, list()),
 		fld("Spec", 13, KMessage, ref("Mid")), fld("Status", 14, KMessage, ref("Leaf"), nonNull()),
